@@ -488,7 +488,8 @@ pub fn run(ctx: &mut Ctx) {
     let max_pairs = ctx.param("max_pairs", 6);
     for _ in 0..ctx.count {
         let mut rng = ctx.rng.fork();
-        let (ops, stream): (Vec<XOp>, &str) = match rng.below(11) {
+        let (ops, stream): (Vec<XOp>, &str) = match rng.below(12) {
+            11 => (crate::suites::eg::gen_wred(&mut rng).into_iter().map(XOp::Base).collect(), "wred"),
             10 => (gen_ground(&mut rng).into_iter().map(XOp::Base).collect(), "ground"),
             9 => (crate::suites::eg::gen_late_redundancy2(&mut rng).into_iter().map(XOp::Base).collect(), "latered2"),
             8 => (crate::suites::eg::gen_late_redundancy(&mut rng).into_iter().map(XOp::Base).collect(), "latered"),
